@@ -1,5 +1,5 @@
 (* C18 proofs, part 2: hex, hrp, no-panic, string level (bech32 as an oracle). *)
-From PV Require Import Lib.Base C18.Model C18.Proofs.
+From PV Require Import Lib.Base C18.Model C18.Proofs C18.Bech32.
 Open Scope Z_scope.
 
 (* ---------------------------------------------------------------- hex *)
@@ -182,13 +182,37 @@ Proof.
 Qed.
 
 (* ---------------------------------------------------------------- strings *)
+Lemma addr_hrp_valid a net : 0 <= net <= 1 ->
+  hrp_valid (hrp_base a ++ (if net =? 0 then s_test else [])).
+Proof.
+  intros Hn. assert (H : net = 0 \/ net = 1) by lia.
+  destruct H as [-> | ->], a; cbn [hrp_base Z.eqb]; unfold hrp_valid;
+    (split; [discriminate|split; [vm_compute; discriminate|]]);
+    repeat constructor; vm_compute; try discriminate; reflexivity.
+Qed.
+
+Lemma to_vec_len a : addr_wf a -> (length (to_vec a) <= 62)%nat.
+Proof.
+  destruct a as [pl c|n p d|n s]; cbn [addr_wf]; [tauto| |].
+  - intros [[Lp _] Hd]. cbn [to_vec to_vec_with length]. rewrite app_length, Lp.
+    destruct d as [h|h|x y z|]; cbn [delegation_to_vec].
+    + destruct Hd as [-> _]. lia.
+    + destruct Hd as [-> _]. lia.
+    + destruct Hd as (Hx & Hy & Hz). unfold pointer_to_vec. rewrite !app_length.
+      pose proof (proj2 (write_wf x Hx)). pose proof (proj2 (write_wf y Hy)). pose proof (proj2 (write_wf z Hz)). lia.
+    + cbn. lia.
+  - intros [L _]. cbn [to_vec to_vec_with length]. rewrite L. lia.
+Qed.
+
 Section Bech32.
   Variable bech32_encode : list Z -> list Z -> list Z.
   Variable bech32_decode : list Z -> option (list Z * list Z).
   Variable byron_from_base58 : list Z -> outcome address.
   Variable p8 : Z -> list Z -> outcome address.
-  (* the only thing assumed of the bech32 crate *)
-  Hypothesis bech32_roundtrip : forall h d, bytes_wf d -> bech32_decode (bech32_encode h d) = Some (h, d).
+  (* the only thing assumed of the bech32 codec: round trip for a valid lower-case
+     hrp and at most 64 data bytes (discharged for the Gallina bech32 in Bech32Addr.v) *)
+  Hypothesis bech32_roundtrip : forall h d, hrp_valid h -> bytes_wf d -> blen d <= 64 ->
+    bech32_decode (bech32_encode h d) = Some (h, d).
 
   Lemma addr_bech32_roundtrip_sec a net : 0 <= net <= 1 -> addr_wf a ->
     addr_network a = Some (network_from net) ->
@@ -204,7 +228,10 @@ Section Bech32.
       assert (E1 : (net =? 1) = true) by lia. rewrite E1. cbn [bind]. rewrite app_nil_r. reflexivity. }
     assert (Hf : from_bech32 bech32_decode p8
                    (bech32_encode (hrp_base a ++ (if net =? 0 then s_test else [])) (to_vec a)) = Ok a).
-    { unfold from_bech32. rewrite bech32_roundtrip by (apply (to_vec_wf a net); try lia; assumption).
+    { unfold from_bech32. rewrite bech32_roundtrip.
+      2:{ apply addr_hrp_valid. lia. }
+      2:{ apply (to_vec_wf a net); try lia; assumption. }
+      2:{ pose proof (to_vec_len a Hw). unfold blen. lia. }
       apply (addr_bytes_roundtrip_proof p8 a net); try lia; assumption. }
     split; [exact Hb|]. split; [exact Hf|].
     unfold to_string. rewrite Hb. unfold from_str. rewrite Hf. reflexivity.
